@@ -416,6 +416,33 @@ def finish(ctx: Ctx, *, level: str, rule: str, assumptions, exhaustive: bool | N
     return 1 if n_viol else 0
 
 
+def debug_logging(on: bool):
+    """The application has switched the library's logger to DEBUG and attached a handler that formats every record (what
+    Home Assistant's debug logging or logging.basicConfig(level=DEBUG) does); formatted text goes nowhere.  Logging is an
+    environment dimension of the cases: no property allows results to depend on it."""
+    import logging
+    lg = logging.getLogger("goodwe")
+    sink = getattr(debug_logging, "_sink", None)
+    if sink is None:
+        class Sink(logging.Handler):
+            def emit(self, record):
+                self.format(record)
+        sink = debug_logging._sink = Sink()
+        sink.setFormatter(logging.Formatter("%(asctime)s %(name)s %(levelname)s %(message)s"))
+    if on:
+        if sink not in lg.handlers:
+            lg.addHandler(sink)
+        lg.setLevel(logging.DEBUG)
+        lg.propagate = False
+        logging.disable(logging.NOTSET)      # (use_repo() silences the library for all other cases)
+    else:
+        if sink in lg.handlers:
+            lg.removeHandler(sink)
+        lg.setLevel(logging.NOTSET)
+        lg.propagate = True
+        logging.disable(logging.CRITICAL)
+
+
 def run_sync(coro):
     """Drive a coroutine that never really suspends (direct simulator path) without an event loop."""
     try:
